@@ -323,6 +323,27 @@ def shuffled(rng, xs):
     return xs
 
 
+def as_iterable(xs):
+    """The same items as a list, a tuple, a one-shot `iter(...)`, a generator or a dict's keys view - chosen by a
+    stable hash of the items' text.  Every netaddr function that documents "a sequence or iterator" must give
+    the same answer for all of them (seeded changes scanned their argument twice, which only a one-shot
+    iterator notices)."""
+    import zlib
+    xs = list(xs)
+    k = zlib.crc32(repr([str(x) for x in xs]).encode('utf-8', 'replace')) % 8
+    if k < 3:
+        COUNTS['call/iterable:list'] += 1
+        return xs
+    if k == 3:
+        COUNTS['call/iterable:tuple'] += 1
+        return tuple(xs)
+    if k < 6:
+        COUNTS['call/iterable:one-shot-iter'] += 1
+        return iter(xs)
+    COUNTS['call/iterable:generator'] += 1
+    return (x for x in xs)
+
+
 def make_glob(text):
     """IPGlob(text).  For every second glob text (by a stable hash) the object is instead first
     built from another glob, exercised (size, len, cidrs(), first/last, hash, str) and then
@@ -334,7 +355,7 @@ def make_glob(text):
     if h & 1:
         return maybe_clone(IPGlob(text), h)
     g = IPGlob('10.11.12.1-9')
-    _ = (g.size, len(g), g.cidrs(), g.first, g.last, hash(g), str(g), list(g)[:2])
+    exercise(g)
     g.glob = text
     return maybe_clone(g, h)
 
@@ -349,13 +370,73 @@ def twice_cidrs(r):
     return r.cidrs()
 
 
+_EX_SKIP = frozenset(['info', 'registration', 'clear', 'update', 'add', 'remove', 'pop', 'extract_subnet',
+                      'remove_subnet', 'compact', 'parse', 'attach', 'detach', 'notify'])
+_EX_PLAN = {}
+
+
+def _exercise_plan(cls):
+    """names of the public read-only surface of a class: every public attribute (properties are evaluated by
+    reading them) and every public method that can be called without arguments; mutators listed in _EX_SKIP and
+    the registry look-ups (file I/O, C19's subject) are left out.  Computed once per class."""
+    import inspect
+    plan = _EX_PLAN.get(cls)
+    if plan is None:
+        plan = []
+        for name in sorted(dir(cls)):
+            if name.startswith('_') or name in _EX_SKIP:
+                continue
+            try:
+                attr = inspect.getattr_static(cls, name)
+            except AttributeError:
+                continue
+            if isinstance(attr, (staticmethod, classmethod)):
+                continue
+            if inspect.isfunction(attr):
+                try:
+                    params = list(inspect.signature(attr).parameters.values())[1:]
+                except (TypeError, ValueError):
+                    continue
+                if any(q.default is q.empty and q.kind in (q.POSITIONAL_ONLY, q.POSITIONAL_OR_KEYWORD, q.KEYWORD_ONLY)
+                       for q in params):
+                    continue
+                plan.append((name, True))
+            else:
+                plan.append((name, False))
+        _EX_PLAN[cls] = plan
+    return plan
+
+
 def exercise(n):
-    """touch everything a cache could hang on"""
-    try:
-        d = {n: 1}
-        _ = (hash(n), n == n, n != n, n in d, str(n), repr(n), n.first, n.last, n.size, n.key(), n.sort_key())
-    except Exception:
-        pass
+    """Touch everything a cache could hang on: the WHOLE public read-only surface of the object (every public
+    attribute and property, every public method callable without arguments - three items are drawn from whatever
+    iterator comes back), then the operators: hash, ==, !=, <, <=, dict lookup, str, repr, bool, len, iteration,
+    indexing, and `x in n` for its own first / last address, its own cidr and itself.  A property about IP objects
+    quantifies over objects with a past; reading an object never changes it, so whatever the check asks after
+    the object has then been moved must be answered from the moved state (seeded changes memoised key(), the
+    membership mask, cidrs() and size on the object and forgot one of the mutators)."""
+    import itertools
+    COUNTS['call/exercise-whole-read-surface'] += 1
+    for name, is_method in _exercise_plan(type(n)):
+        try:
+            v = getattr(n, name)
+            if is_method:
+                v = v()
+            if hasattr(v, '__next__'):
+                list(itertools.islice(v, 3))
+        except Exception:
+            pass
+    probes = [lambda: {n: 1}[n], lambda: hash(n), lambda: n == n, lambda: n != n, lambda: n < n, lambda: n <= n,
+              lambda: str(n), lambda: repr(n), lambda: bool(n), lambda: len(n), lambda: int(n),
+              lambda: list(itertools.islice(iter(n), 2)), lambda: (n[0], n[-1]),
+              lambda: n.first in n, lambda: n.last in n, lambda: n[0] in n, lambda: n[-1] in n,
+              lambda: n.cidr in n, lambda: n in n, lambda: n.ip in n, lambda: (n.first - 1) in n,
+              lambda: n.cidrs()[0] in n]
+    for f in probes:
+        try:
+            f()
+        except Exception:
+            pass
 
 
 def _make_net(ver, val, plen):
@@ -438,11 +519,7 @@ def _make_addr(ver, val):
 
 
 def _exercise_addr(a):
-    try:
-        d = {a: 1}
-        _ = (hash(a), a == a, a in d, str(a), repr(a), int(a), a.key(), a.sort_key(), a.packed, a.words)
-    except Exception:
-        pass
+    exercise(a)
 
 
 def _make_eui(v, ver, dialect=None):
@@ -460,16 +537,37 @@ def _make_eui(v, ver, dialect=None):
     others = ([netaddr.mac_cisco, netaddr.mac_bare, netaddr.mac_unix_expanded, netaddr.mac_pgsql] if ver == 48 else
               [netaddr.eui64_cisco, netaddr.eui64_bare, netaddr.eui64_unix_expanded, netaddr.eui64_base])
     e = EUI(v ^ (1 << ((h >> 1) % ver)), version=ver, dialect=others[(h >> 8) % 4])
-    try:
-        _ = (hash(e), e == e, str(e), e.words, e.packed, e.bits(), e.ei, e[0], e.oui if False else None, int(e))
-    except Exception:
-        pass
-    if (h >> 12) & 1:
+    exercise(e)
+    route = (h >> 12) % 3
+    if route == 2:
+        # word assignment is only defined for a dialect of the object's own width (words x word size = width), before
+        # and after the dialect change
+        for d in (e.dialect, dialect or e.dialect):
+            try:
+                if d.word_size * d.num_words != ver:
+                    route = 0
+            except Exception:
+                route = 0
+    if route == 0:
         e.value = v
         e.dialect = dialect
+    elif route == 1:
+        e.dialect = dialect
+        e.value = v
     else:
-        e.dialect = dialect
-        e.value = v
+        # word by word through item assignment, under whatever dialect the object has at that moment
+        COUNTS['object/eui:moved-by-word-assignment'] += 1
+        if (h >> 14) & 1:
+            e.dialect = dialect
+        ws = e.dialect.word_size
+        nw = e.dialect.num_words
+        order = list(range(nw)) if (h >> 15) & 1 else list(range(nw - 1, -1, -1))
+        for i in order:
+            e[i] = (v >> (ws * (nw - 1 - i))) & ((1 << ws) - 1)
+            if i == order[0]:
+                exercise(e)
+        if not (h >> 14) & 1:
+            e.dialect = dialect
     _bystander_eui(ver, dialect, h)
     return e
 
@@ -582,6 +680,37 @@ def disturb(*objs):
                 o.value = o.value ^ 1
         except Exception:
             pass
+
+
+def _ip_objects(r, depth=0):
+    from netaddr import IPAddress, IPNetwork
+    if isinstance(r, (IPAddress, IPNetwork)):
+        yield r
+    elif isinstance(r, (list, tuple)) and depth < 4:
+        for x in r:
+            for y in _ip_objects(x, depth + 1):
+                yield y
+    elif hasattr(r, '_start') and hasattr(r, '_end'):
+        yield r._start if False else r            # ranges are immutable through the public API; nothing to move
+
+
+def twice(fn):
+    """`fn()` asked twice: the objects in the first answer are moved in place (what a caller may do with a
+    result that is its own), then the question - `fn` builds its arguments anew - is asked again and that second
+    answer is what the check looks at.  A result assembled from objects that a cache or the library keeps
+    (a seeded change memoised cidr_partition's lists of blocks) comes back changed."""
+    first = fn()
+    if isinstance(first, (list, tuple)):
+        COUNTS['call/asked-twice-first-answer-moved'] += 1
+        disturb(*list(_ip_objects(first)))
+        if isinstance(first, list):
+            try:
+                first.reverse()
+                first.append(None)
+            except Exception:
+                pass
+        return fn()
+    return first
 
 
 def make_range(ver, lo, hi):
